@@ -1,7 +1,7 @@
-import SuccinctlyVerif.Spec.YamlPos
+import SuccinctlyVerif.Spec.YamlValPos
 import Driver.C14
 namespace SV.Drv.C18
-open SV SV.Drv SV.Yaml
+open SV SV.Drv SV.YamlRef
 
 def exec (a : List String) : String :=
   match a with
